@@ -29,6 +29,7 @@ EXPLANATION = (
     "nothing registered that the source does not contain. Shim conformance (every run): 300 module trees are rendered "
     "to Python, parsed by the real mypy, and the real walker+visitor must give the same API and the same errors on "
     "real nodes, on their generic shim conversion and on the builder-made nodes."
+    ' G_ast includes superclasses written with type arguments, functions inside module-level if blocks, overloaded static methods with decorated implementation and constructors with item / nested / starred / local / foreign-object assignment targets.'
 )
 ASSUMPTIONS = [
     "mypy shim validated against the real mypy on every run; plaintext docstrings; empty alias table",
